@@ -438,16 +438,19 @@ theorem vault_fee_inflows :
 def tRw (x : String) : Bool := x.startsWith "rewards.GetLockerRewardTracker("
 
 /-- bank calls of the remaining entry points of the collector / rewards books: op, parties, denomination text, positivity
-class, number of path conditions, loop and cache flags -/
+class, signature of the path conditions (polarity, hash of the whole condition text), loop and cache flags -/
 theorem collector_pins :
     pins h_collector_GetAmountFromCollector
-      = [⟨"SendCoinsFromModuleToModule", "\"collectorV1\"", "\"auctionV1\"", "asset.GetAsset(assetID).Denom", false, 0, false, false⟩] ∧
+      = [⟨"SendCoinsFromModuleToModule", "\"collectorV1\"", "\"auctionV1\"", "asset.GetAsset(assetID).Denom", false, [], false, false⟩] ∧
     pins h_collector_WasmMsgGetSurplusFund
-      = [⟨"SendCoinsFromModuleToAccount", "\"collectorV1\"", "addr", "amount.Denom", false, 0, false, false⟩] ∧
+      = [⟨"SendCoinsFromModuleToAccount", "\"collectorV1\"", "addr", "amount.Denom", false, [], false, false⟩] ∧
     pins h_collector_LockerIterateRewards
-      = [⟨"SendCoinsFromModuleToModule", "\"collectorV1\"", "\"lockerV1\"", "asset.GetAsset(assetID).Denom", true, 7, true, false⟩] ∧
+      = [⟨"SendCoinsFromModuleToModule", "\"collectorV1\"", "\"lockerV1\"", "asset.GetAsset(assetID).Denom", true,
+          [(true, 3212819272), (true, 2528488180), (false, 3898808028), (false, 2351626753), (true, 2997954978),
+           (false, 2904832541), (true, 1333273752)], true, false⟩] ∧
     pins h_rewards_CalculateLockerRewards
-      = [⟨"SendCoinsFromModuleToModule", "\"collectorV1\"", "\"lockerV1\"", "asset.GetAsset(assetID).Denom", true, 4, false, false⟩] ∧
+      = [⟨"SendCoinsFromModuleToModule", "\"collectorV1\"", "\"lockerV1\"", "asset.GetAsset(assetID).Denom", true,
+          [(false, 3725782858), (false, 42584694), (true, 535384918), (true, 1024859244)], false, false⟩] ∧
     pins h_collector_DecreaseNetFeeCollectedData = [] ∧ pins h_collector_UpdateCollector = [] ∧
     pins h_collector_SetNetFeeCollectedData = [] ∧ pins h_rewards_CalculateVaultInterest = [] ∧
     -- in `LockerIterateRewards` the transfer comes AFTER the net-fee record was decreased and is skipped (`continue`) when that fails
